@@ -153,3 +153,8 @@ Fixpoint race_free (ops : list hop) : bool :=
   | _ :: tl => race_free tl
   | [] => true
   end.
+
+(** A tick never comes before the duration the Timer was armed for:
+    (duration asked for, time measured until the tick; -1 = no tick), in ns. *)
+Definition latency_case := (Z * Z)%type.
+Definition latency_bad (c : latency_case) : bool := let '(d, e) := c in (e <? d)%Z || (e <? 0)%Z.
